@@ -144,6 +144,15 @@ def skip_buf():
     return num(m.group(1)) * num(m.group(2))
 
 
+def size_tests():
+    """every comparison of the announced body length with the item size limit in the codec: 0 for `>`, 1 for `>=`, 2 for anything else"""
+    text = strip_comments(src("src/protocol/binary_codec.rs"))
+    ops = re.findall(r"self\.header\.body_length\s*(>=|>|<=|<|==|!=)\s*self\.item_size_limit", text)
+    if not ops:
+        return None
+    return [0 if o == ">" else 1 if o == ">=" else 2 for o in ops]
+
+
 def lean_opt(v, f):
     return "none" if v is None else "some " + f(v)
 
@@ -159,6 +168,7 @@ l = section("limits", limits)
 o = section("opcode_max", opcode_max)
 v = section("version", version)
 sb = section("skip_buf", skip_buf)
+szt = section("size_tests", size_tests)
 
 out = f'''/-!
 GENERATED by tools/gentables.py from the memc-rs source on every run of a check — do not edit.
@@ -190,6 +200,9 @@ def version : Option (List UInt8) := {lean_opt(v, lst)}
 
 /-- `skip_bytes`: size of the scratch buffer of the discard loop -/
 def skipBuf : Option Nat := {lean_opt(sb, str)}
+
+/-- every comparison `self.header.body_length OP self.item_size_limit` of the codec: 0 = `>`, 1 = `>=`, 2 = another operator -/
+def sizeTests : Option (List Nat) := {lean_opt(szt, lst)}
 
 end Memc.Gen
 '''
